@@ -2,7 +2,7 @@
 //! faults, fewer context switches — while the same violation class persists.
 
 use crate::prng::derive;
-use crate::run::{execute, ExecCfg, Outcome, Violation};
+use crate::run::{ExecResult, Violation};
 use crate::sched::{PolicyKind, Source, ALL_POLICIES};
 use crate::workload::{Op, Workload};
 use serde::{Deserialize, Serialize};
@@ -16,6 +16,15 @@ pub struct ReplayFile {
     pub run_seed: u64,
     pub policy: PolicyKind,
     pub fault_run: bool,
+    /// allocator scheduling points: 0 off, k = every k-th allocation
+    #[serde(default)]
+    pub alloc_every: u32,
+    /// true: the run must be executed as the first simulated run of a fresh process
+    #[serde(default)]
+    pub fresh_process: bool,
+    /// fresh-process runs: was the process warmed up with one parse + eval per kind (steady state)?
+    #[serde(default)]
+    pub fresh_warm_full: bool,
     pub workload: Workload,
     pub schedule: Vec<u8>,
     pub violation: Violation,
@@ -30,13 +39,17 @@ pub fn switches(s: &[u8]) -> usize {
     s.windows(2).filter(|w| w[0] != w[1]).count()
 }
 
-fn has_class(out: &Outcome, class: &(String, String)) -> Option<Violation> {
+fn has_class(out: &ExecResult, class: &(String, String)) -> Option<Violation> {
     out.violations.iter().find(|v| &v.class() == class).cloned()
 }
 
+/// How the minimiser executes a candidate: in this process (steady state) or in a fresh child
+/// process (first-use runs, whose subject is state that exists once per process).
+pub type Exec<'a> = &'a mut dyn FnMut(&Workload, Source) -> ExecResult;
+
 struct Ctx<'a> {
     class: (String, String),
-    cfg: &'a ExecCfg,
+    exec: Exec<'a>,
     execs: u64,
     budget: u64,
     seed: u64,
@@ -60,9 +73,9 @@ impl Ctx<'_> {
                 return None;
             }
             self.execs += 1;
-            let out = execute(w, s, self.cfg);
+            let out = (self.exec)(w, s);
             if let Some(v) = has_class(&out, &self.class) {
-                return Some((out.report.schedule.clone(), v));
+                return Some((out.schedule.clone(), v));
             }
         }
         None
@@ -115,10 +128,10 @@ pub fn minimise(
     v0: &Violation,
     seed: u64,
     policy: PolicyKind,
-    cfg: &ExecCfg,
+    exec: Exec<'_>,
     budget: u64,
 ) -> Minimised {
-    let mut ctx = Ctx { class: v0.class(), cfg, execs: 0, budget, seed, policy };
+    let mut ctx = Ctx { class: v0.class(), exec, execs: 0, budget, seed, policy };
     let mut w = w0.clone();
     let mut sched = sched0.to_vec();
     let mut viol = v0.clone();
@@ -234,10 +247,10 @@ pub fn minimise(
                     m += 1;
                 }
                 ctx.execs += 1;
-                let out = execute(&w, Source::Lenient(cand), cfg);
+                let out = (ctx.exec)(&w, Source::Lenient(cand));
                 if let Some(v) = has_class(&out, &ctx.class) {
-                    if switches(&out.report.schedule) < switches(&sched) {
-                        sched = out.report.schedule.clone();
+                    if switches(&out.schedule) < switches(&sched) {
+                        sched = out.schedule.clone();
                         viol = v;
                         improved = true;
                         k = k.min(sched.len());
